@@ -26,6 +26,10 @@ class PathInfeasible(Exception):
     """Internal: the current path has an unsatisfiable path condition."""
 
 
+class PathPruned(Exception):
+    """Internal: the path was cut by a stated exploration bound (e.g. more than k re-draws of a rejection loop)."""
+
+
 class StopPath(Exception):
     """Internal: a cut loop's arbitrary iteration has ended; the path stops here."""
 
@@ -545,6 +549,9 @@ class PathResult:
         self.notes = notes
 
 
+PRUNED = [0]
+
+
 def explore(fn, max_paths=None):
     """Run fn() along every feasible path; return a list of PathResult."""
     work = [[]]
@@ -556,6 +563,10 @@ def explore(fn, max_paths=None):
         try:
             r = ("ok", fn())
         except PathInfeasible:
+            continue
+        except PathPruned:
+            PRUNED[0] += 1
+            work.extend(CTX.pending)
             continue
         except StopPath:
             r = ("stop", None)
